@@ -387,3 +387,15 @@ def sweep_whole(tier):
 
 
 SWEEPS = {'near-miss-list': sweep_whole}
+
+
+def fuzz_campaigns(tier, seed):
+  """Coverage-guided campaigns (atheris) over arbitrary bytes with check_nearmiss as the oracle."""
+  from vf.fuzz import plans  # pylint: disable=g-import-not-at-top
+  return plans.run('vf.fuzz.c02',
+                   lambda text: {'kind': 'nearmiss', 'text': text, 'mutation': 'fuzz'},
+                   check_case, tier, seed, plans.C02_SEEDS, plans.C02_TOKENS, quick_runs=30000,
+                   max_len=96)
+
+
+EXTRA = [fuzz_campaigns]
